@@ -79,6 +79,14 @@ func buildPlan(seed uint64, n int, tier string, search bool) []wo.Input {
 					{ID: len(h) + 1, Iface: last.Iface, TS: last.TS + 86400 + 600, NV4: 1, NV6: 0, Drops: 0},
 				}
 			}
+			if k < len(cals[i].Ops) && wo.StaleSuffix(cals[i].Ops, k) {
+				// the kill point between the two renames: the state before the next write-out (known finding) ...
+				in.Hist2 = nil
+				p = append(p, in)
+				// ... and, judged on its own, the state after a completed write-out to that very day
+				p = append(p, wo.Input{Kind: "crash", Hist: h, K: k, Post: true, Hist2: wo.RecoveryFor(h, cals[i].Ops[k], 40+hr.Intn(10))})
+				continue
+			}
 			p = append(p, in)
 			if tier == "thorough" && k > 0 && cals[i].Ops[k-1].Kind == "write" && cals[i].Ops[k-1].Len >= 4 {
 				for part := 1; part <= 3; part++ {
